@@ -28,3 +28,29 @@ package rule
 
 //@ iface (SetProcessor).OnDeleted
 //@   logged ond
+
+// C06 / C07: the accessors of rules and routes only read
+//@ iface (Rule).ID
+//@   props C06 C07
+//@   pure
+//@ iface (Rule).SrcID
+//@   props C06 C07
+//@   pure
+//@ iface (Rule).Routes
+//@   props C06 C07
+//@   pure
+//@ iface (Rule).AllowsBacktracking
+//@   props C06 C07
+//@   pure
+//@ iface (Rule).SameAs
+//@   props C06 C07
+//@   pure
+//@ iface (Rule).EqualTo
+//@   props C06 C07
+//@   pure
+//@ iface (Route).Path
+//@   props C06 C07
+//@   pure
+//@ iface (Route).Rule
+//@   props C06 C07
+//@   pure
